@@ -27,6 +27,9 @@ type KeyCfg struct {
 	// FailSign: the key cannot sign (an HSM / KMS that is unavailable): crypto.Signer.Sign returns an error for
 	// setter and TLS-field keys, GetKeyPair returns an error for the custom store.
 	FailSign bool `json:"failSign,omitempty"`
+	// FieldPtr: the deprecated-field store of modes "tls" / "both" is the pointer-typed custom store instead of the
+	// value-typed TLS one (so that one store OBJECT can be shared between the two fields, see ShareFieldStore).
+	FieldPtr bool `json:"fieldPtr,omitempty"`
 }
 
 // FailingSigner has the public key of a real key and refuses to sign.
@@ -86,6 +89,10 @@ type SPConfig struct {
 	ValidateEncCert bool  `json:"validateEncCert"`
 	AllowMissing    bool  `json:"allowMissingAttributes"`
 
+	// ShareFieldStore: SPSigningKeyStore is assigned the very same store object as SPKeyStore (one key for both
+	// purposes, configured through both deprecated fields); Sig must then describe that key (mode custom, Enc.Field).
+	ShareFieldStore bool `json:"shareFieldStore,omitempty"`
+
 	// LateSignOptions: the signature algorithm and canonicaliser are assigned AFTER the key setters ran (and before
 	// the first use) instead of in the struct literal: both orders configure the same service provider
 	LateSignOptions bool `json:"lateSignOptions,omitempty"`
@@ -120,6 +127,9 @@ func (c SPConfig) Now() time.Time {
 func keyStoreField(k KeyCfg) dsig.X509KeyStore {
 	switch k.Mode {
 	case "tls", "both":
+		if k.FieldPtr {
+			return NewCustomStore(k.Field)
+		}
 		st := TLSStore(k.Field)
 		if k.Chain {
 			st.Certificate = append(st.Certificate, ChainIssuer.DER())
@@ -188,6 +198,9 @@ func (c SPConfig) Build() *saml2.SAMLServiceProvider {
 	}
 	if f := keyStoreField(c.Sig); f != nil {
 		sp.SPSigningKeyStore = f
+	}
+	if c.ShareFieldStore && sp.SPKeyStore != nil {
+		sp.SPSigningKeyStore = sp.SPKeyStore
 	}
 	if c.Sig.Mode == "setter" || c.Sig.Mode == "both" {
 		k := K(c.Sig.Setter.Key)
